@@ -75,7 +75,7 @@ Proof.
   constructor; rewrite ?Hp, ?Ha, ?He, ?Hoa, ?Hoc; auto.
 Qed.
 
-Lemma I1_new n c : I1 (new_inst n c) (mkOI n 0 0 false None None false false false false false false false 0 false false false false false).
+Lemma I1_new n c : I1 (new_inst n c) (mkOI n 0 0 false None None false false false false false false false 0 false false false false false false []).
 Proof. constructor; cbn; try discriminate; auto. Qed.
 
 Lemma I1_own e x x' xo xo' : I1 x xo -> own_tr e (pc x) (pc x') = true ->
@@ -171,7 +171,7 @@ Lemma obs_newinst_get o th i n j xo' :
 Proof.
   unfold obs_step. cbn [fst snd ev_inst]. rewrite refresh_get.
   match goal with |- context[get j (oi ?X)] =>
-    replace (oi X) with (set i (mkOI n (o_cnt o) 0 false None None false false false false false false false 0 false false (api_thread o th) false false) (oi o)) by reflexivity end.
+    replace (oi X) with (set i (mkOI n (o_cnt o) 0 false None None false false false false false false false 0 false false (api_thread o th) false false false []) (oi o)) by reflexivity end.
   rewrite get_set. destruct (N.eqb i j).
   - cbn. intros [= <-]. unfold api_thread. repeat split; reflexivity.
   - destruct (get j (oi o)) as [xo|]; cbn; try discriminate; intros [= <-].
